@@ -8,14 +8,16 @@ GEN = "coloropt.ndjson"
 
 
 def key(v, ev):
-    """failing relation + document family + normalisation setting (+ panic site)."""
+    """failing relation + document family (+userfont when the font table holds a font derived from a built-in one)
+    + normalisation setting + single/multi-layer (+ panic site)."""
     pred = v.get("pred")
     info = v.get("info") or {}
     if pred == "NoPanic":
         return f"panic@{info.get('site', '?')}"
     if pred in ("SameImage", "SameSize"):
         layers = "multi-layer" if (info.get("layers") or (ev or {}).get("layers") or 1) > 1 else "single-layer"
-        return f"{pred}:{info.get('family') or (ev or {}).get('family')}:norm={info.get('norm', (ev or {}).get('norm'))}:{layers}"
+        fam = (info.get("family") or (ev or {}).get("family") or "?") + ("+userfont" if (ev or {}).get("userfont") else "")
+        return f"{pred}:{fam}:norm={info.get('norm', (ev or {}).get('norm'))}:{layers}"
     return str(pred)
 
 
